@@ -229,8 +229,12 @@ def gen_history(r, h, nmax=12):
     """operations on one object: image2sky / sky2image(find, distort) / get_jacobian, scalar or
     short array arguments; sky positions are placed inside the footprint by the float reference"""
     ops = []
+    distorted = header_kind(h) != "tan"
     for _ in range(r.randrange(2, nmax + 1)):
-        kind = r.choice(["i2s", "s2i", "s2i", "jac"])
+        kind = r.choice(["i2s", "s2i", "s2i", "jac"] + (["inv"] if distorted else []))
+        if kind == "inv":
+            ops.append({"op": "inv", "arr": False, "pts": [], "distort": True})     # explicit InvertDistortion()
+            continue
         npt = r.choice([0, 0, 1, 3])        # 0 = scalar call
         pts = [[r.uniform(1.0, h["naxis1"]), r.uniform(1.0, h["naxis2"])] for _ in range(max(npt, 1))]
         if kind == "s2i":
@@ -454,3 +458,31 @@ def reference_inverse(h, fac=5, w=None):
 def ref_fit_yardstick(h, w=None):
     name, ap, bp = reference_inverse(h, w=w)
     return fit_rms(h, name, ap, bp)
+
+
+def gen_history_orders(r, h):
+    """one call of each kind -- image2sky(distort=True/False), sky2image(find=True/False x distort=True/False),
+    get_jacobian(distort=True/False), InvertDistortion() -- on the same positions, in a random order (every order is
+    reachable), followed by a repetition of the first two"""
+    def pts(n):
+        return [[r.uniform(1.0, h["naxis1"]), r.uniform(1.0, h["naxis2"])] for _ in range(n)]
+
+    def sky(n):
+        return [list(ref_sky(h, p[0], p[1])) for p in pts(n)]
+    arr = r.random() < 0.5
+    n = 3 if arr else 1
+    # the SAME pixel positions / sky positions for every flag combination (a cache keyed on the positions only,
+    # or state left behind by one flag combination, shows up as a difference from a fresh object)
+    P, S = pts(n), sky(n)
+    ops = [{"op": "i2s", "arr": arr, "pts": P, "distort": True},
+           {"op": "i2s", "arr": arr, "pts": P, "distort": False},
+           {"op": "s2i", "arr": arr, "pts": S, "distort": True, "find": True},
+           {"op": "s2i", "arr": arr, "pts": S, "distort": False, "find": True},
+           {"op": "s2i", "arr": arr, "pts": S, "distort": True, "find": False},
+           {"op": "s2i", "arr": arr, "pts": S, "distort": False, "find": False},
+           {"op": "jac", "arr": arr, "pts": P, "distort": True},
+           {"op": "jac", "arr": arr, "pts": P, "distort": False}]
+    if header_kind(h) != "tan":
+        ops.append({"op": "inv", "arr": False, "pts": [], "distort": True})
+    r.shuffle(ops)
+    return ops + [dict(ops[0]), dict(ops[1])]
